@@ -35,9 +35,11 @@ Qed.
 (* ---- runs are bounded: a rank that every step decreases ---- *)
 Definition rankA (p : pcA) : nat :=
   match p with
-  | A_done _ => 0 | Aw_rename _ => 1 | Aw_utimes _ => 2 | Aw_closetmp _ => 3 | Aw_write _ => 4
-  | Aw_create => 5 | Aw_mkdir => 6 | At_close _ _ => 7 | At_unflock _ _ => 8 | At_utimes _ => 9
-  | At_wait _ => 10 | At_flock _ => 11 | At_open => 12 | Ac_close _ => 13 | Ac_open => 14 | Ac_stat => 15
+  | A_done _ => 0 | Aw_fclose _ => 1 | Aw_funlock _ => 2 | Aw_renameL _ _ => 3 | Aw_rename _ => 3
+  | Aw_fwait _ _ => 4 | Aw_fflock _ _ => 5 | Aw_fopen _ => 6
+  | Aw_utimes _ => 7 | Aw_closetmp _ => 8 | Aw_write _ => 9
+  | Aw_create => 10 | Aw_mkdir => 11 | At_close _ _ => 12 | At_unflock _ _ => 13 | At_utimes _ => 14
+  | At_wait _ => 15 | At_flock _ => 16 | At_open => 17 | Ac_close _ => 18 | Ac_open => 19 | Ac_stat => 20
   end.
 Definition rankB (p : pcB) : nat :=
   match p with
@@ -46,7 +48,7 @@ Definition rankB (p : pcB) : nat :=
   end.
 Definition rank (s : st) : nat := rankA (pa s) + rankB (pb s).
 
-Lemma a_fail_rank s : rankA (a_fail s) <= 6.
+Lemma a_fail_rank s : rankA (a_fail s) <= 11.
 Proof. unfold a_fail. destruct (is_put s); cbn; lia. Qed.
 
 Lemma stepA_rank s s' : stepA s = Some s' -> rank s' < rank s.
@@ -85,8 +87,17 @@ Proof.
   induction 1 as [|n s s1 s2 Hs Hr IH]; [lia|]. apply step_rank in Hs. lia.
 Qed.
 
-Lemma init_rank p put rm : rank (init p put rm) <= FUEL.
+Lemma init7_rank p put rm fx : rank (init7 p put rm fx) <= FUEL.
 Proof. destruct put; cbn; unfold FUEL; lia. Qed.
+Lemma init_rank p put rm : rank (init p put rm) <= FUEL.
+Proof. apply init7_rank. Qed.
+
+Lemma maximal_in_finals7 p put rm fx n s :
+  rrun n (init7 p put rm fx) s -> succs s = [] -> In s (finals FUEL (init7 p put rm fx)).
+Proof.
+  intros Hr He. eapply finals_complete; [|exact Hr|exact He].
+  pose proof (run_bounded _ _ _ Hr). pose proof (init7_rank p put rm fx). lia.
+Qed.
 
 Lemma runs_bounded p put rm n s : rrun n (init p put rm) s -> n <= FUEL.
 Proof. intros Hr. pose proof (run_bounded _ _ _ Hr). pose proof (init_rank p put rm). lia. Qed.
@@ -260,3 +271,35 @@ Example ex_touch_first :
   exists s, exec (init POldGood false false) [TA; TA; TA; TA; TA; TB; TB; TB; TB; TB] = Some s /\ succs s = [] /\
             a_ok s = true /\ contract s = true.
 Proof. eexists. split; [vm_compute; reflexivity|]. repeat split; vm_compute; reflexivity. Qed.
+
+(* ---- the repair of fixes/F7.diff closes F7: with WriteBlock taking the flock on the file it replaces,
+   EVERY interleaving of PUT || Trash keeps the contract, for every prior state (corrupt included) and
+   both trash modes, and nobody deadlocks ---- *)
+Lemma sweep_put_fixed : forallb (fun p => forallb (fun rm => forallb (fun s => contract s && both_done s)
+                        (finals FUEL (init7 p true rm true))) [false; true]) all_priors = true.
+Proof. vm_compute. reflexivity. Qed.
+
+Theorem put_trash_race_fixed p rm n s :
+  rrun n (init7 p true rm true) s -> succs s = [] -> contract s = true /\ both_done s = true.
+Proof.
+  intros Hr He. pose proof (maximal_in_finals7 _ _ _ _ _ _ Hr He) as Hin.
+  pose proof sweep_put_fixed as H. rewrite forallb_forall in H. specialize (H p (in_priors p)).
+  rewrite forallb_forall in H. specialize (H rm (in_bools rm)). rewrite forallb_forall in H.
+  specialize (H s Hin). apply andb_true_iff in H. exact H.
+Qed.
+
+(* ---- the interleaving-level boolean specification reflects its Prop form ---- *)
+Definition SpecI (c : case) : Prop :=
+  (r_a_ok c = true -> exists a, r_path c = Some (Good, a) \/ (r_put c = false /\ r_path c = Some (Corrupt, a))) /\
+  (r_prior c = PFreshGood -> exists a, r_path c = Some (Good, a)).
+Theorem race_spec_b_iff c : spec_b c = true <-> SpecI c.
+Proof.
+  unfold spec_b, SpecI. rewrite andb_true_iff, orb_true_iff, negb_true_iff. split.
+  - intros [A B]. split.
+    + intros Ha. destruct A as [A|A]; [congruence|]. destruct (r_path c) as [[[|] a]|]; [eauto| |discriminate].
+      apply negb_true_iff in A. eauto.
+    + intros Hp. rewrite Hp in B. destruct (r_path c) as [[[|] a]|]; try discriminate. eauto.
+  - intros [A B]. split.
+    + destruct (r_a_ok c); [right|left; reflexivity]. destruct (A eq_refl) as (a & [X|[X Y]]); rewrite ?X, ?Y; reflexivity.
+    + destruct (r_prior c); try reflexivity. destruct (B eq_refl) as (a & X). rewrite X. reflexivity.
+Qed.
